@@ -341,6 +341,13 @@ def m_option_copied(I, args, callee):
     return some(deep_copy(I.deref(o.fields[0])))
 
 
+def m_option_replace(I, args, callee):
+    r = args[0]
+    o = I.load(r.cell, r.path)
+    I.store(r.cell, r.path, some(args[1]))
+    return o
+
+
 def m_option_take(I, args, callee):
     r = args[0]
     o = I.load(r.cell, r.path)
@@ -429,7 +436,25 @@ def m_slice_get(I, args, callee):
     sl, idx = args
     sl = as_slice(I, sl)
     if isinstance(idx, Agg):
-        raise Unsupported('slice::get(range)')
+        n = usize(sl.len)
+        kind = idx.kind
+        if kind == 'Range':
+            a, b = idx.fields
+        elif kind == 'RangeFrom':
+            a, b = idx.fields[0], n
+        elif kind == 'RangeTo':
+            a, b = usize(0), idx.fields[0]
+        elif kind == 'RangeFull':
+            a, b = usize(0), n
+        elif kind == 'RangeInclusive':
+            a, b = idx.fields[0], I.binop('Add', idx.fields[1], usize(1))
+        else:
+            raise Unsupported('slice::get by ' + kind)
+        okb = I.binop('BitAnd', I.binop('Le', a, b), I.binop('Le', b, n))
+        if not truthy(I, okb):
+            return none()
+        av, bv = I.concretize(a, 'range start', limit=400), I.concretize(b, 'range end', limit=400)
+        return some(SliceRef(sl.cell, sl.path, sl.start + av, bv - av))
     inb = I.binop('Lt', idx, usize(sl.len))
     if not truthy(I, inb):
         return none()
@@ -2054,6 +2079,7 @@ MODELS = [
     (r'^Option::<.*>::as_deref$', m_option_as_deref),
     (r'^Option::<.*>::(copied|cloned)$', m_option_copied),
     (r'^Option::<.*>::take$', m_option_take),
+    (r'^Option::<.*>::replace$', m_option_replace),
     (r'^Result::<.*>::map::', m_result_map),
     (r'^Result::<.*>::map_err::', m_result_map_err),
     (r'^Result::<.*>::ok$', m_result_ok),
@@ -2071,7 +2097,7 @@ MODELS = [
     (r'^MaybeUninit::<.*>::write$', m_maybeuninit_write),
     (r'^MaybeUninit::<.*>::assume_init$', m_maybeuninit_assume_init),
     # slices / Vec
-    (r'^(core::)?slice::<impl \[.*\]>::get::<usize>$', m_slice_get),
+    (r'^(core::)?slice::<impl \[.*\]>::get::<(usize|(std::ops::|core::ops::)?Range(From|To|Full|Inclusive)?(<usize>)?)>$', m_slice_get),
     (r'^<(\[.*\]|Vec<.*>|str|String|\[.*; \d+\]) as (std::ops::)?Index(Mut)?<.*>>::index(_mut)?$', m_slice_index),
     (r'^(core::)?str::<impl str>::is_char_boundary$', m_is_char_boundary),
     (r'^Vec::<.*>::new$', m_vec_new),
